@@ -401,9 +401,14 @@ func c03ForEachSeq(syms []string, prefix []int, minL, maxL int, f func(s string)
 
 // c03CheckAll runs every entry point of the format on the input.
 func (f *c03Format) checkAll(c *mc.Ctx, input string, isSeed bool) {
+	f.checkAllEnd(c, input, isSeed, false)
+}
+
+// checkAllEnd: endErr = the input ends with a read error instead of end-of-file.
+func (f *c03Format) checkAllEnd(c *mc.Ctx, input string, isSeed, endErr bool) {
 	quoted := strconv.Quote(input)
 	in := []byte(input)
-	c.Mark(c03Case{Format: f.Name, All: true, In: quoted, Seed: isSeed})
+	c.Mark(c03Case{Format: f.Name, All: true, In: quoted, Seed: isSeed, EndErr: endErr})
 	var seed *c03Seed
 	for i := range f.Seeds {
 		if isSeed && f.Seeds[i].Text == input {
@@ -411,7 +416,7 @@ func (f *c03Format) checkAll(c *mc.Ctx, input string, isSeed bool) {
 		}
 	}
 	for _, e := range f.Entries {
-		cs := c03Case{Entry: e.Entry, Strict: e.Strict, Len: e.Len, In: quoted}
+		cs := c03Case{Entry: e.Entry, Strict: e.Strict, Len: e.Len, In: quoted, EndErr: endErr}
 		if seed != nil && f.Name == "phylip" {
 			cs.Seed = (e.Strict && seed.Strict) || (!e.Strict && seed.Relaxed)
 		}
@@ -535,6 +540,11 @@ func (f *c03Format) seedTask(si int) mc.Task {
 				seen[m] = struct{}{}
 				c.Count("inputs/"+f.Name+"-seeds/"+kind, 1)
 				f.checkAll(c, m, kind == "identity")
+				if kind == "identity" || kind == "truncation" {
+					// the same bytes from a reader that ends with a read error (truncated .gz / .xz file)
+					c.Count("inputs/"+f.Name+"-seeds/"+kind+"-read-error", 1)
+					f.checkAllEnd(c, m, false, true)
+				}
 			}
 			return !c.Expired()
 		}
@@ -635,10 +645,58 @@ func (f *c03Format) spliceTask(ai int, tokens bool) mc.Task {
 	}}
 }
 
+// longLineTask: files whose lines end at, just before and just after a multiple of the 4096-byte read buffer
+// (row lines and name lines of every length 4080..4100 and 8180..8196; LF, CRLF, no final newline, cut
+// inside the last line): lexers that read by chunks have their boundary cases there.
+func (f *c03Format) longLineTask() mc.Task {
+	return mc.Task{Name: f.Name + "-long-lines", Run: func(c *mc.Ctx) {
+		c03Setup()
+		var lens []int
+		for l := 4080; l <= 4100; l++ {
+			lens = append(lens, l)
+		}
+		for l := 8180; l <= 8196; l++ {
+			lens = append(lens, l)
+		}
+		for _, L := range lens {
+			a, b, n := strings.Repeat("A", L), strings.Repeat("C", L), strings.Repeat("n", L)
+			var texts []string
+			switch f.Name {
+			case "fasta":
+				texts = []string{">a\n" + a + "\n>b\n" + b + "\n", ">" + n + "\nAC\n>b\nGT\n", ">a\n" + a + "\n" + a + "\n>b\n" + b + "\n" + b + "\n"}
+			case "phylip":
+				texts = []string{fmt.Sprintf("2 %d\na %s\nb %s\n", L, a, b), fmt.Sprintf(" 2 %d\na         %s\nb         %s\n", L, a, b), fmt.Sprintf("2 2\n%s AC\nb GT\n", n)}
+			case "nexus":
+				texts = []string{fmt.Sprintf("#NEXUS\nBEGIN DATA;\nDIMENSIONS NTAX=2 NCHAR=%d;\nFORMAT DATATYPE=DNA;\nMATRIX\na %s\nb %s\n;\nEND;\n", L, a, b),
+					fmt.Sprintf("#NEXUS\n[%s]\nBEGIN DATA;\nDIMENSIONS NTAX=2 NCHAR=2;\nFORMAT DATATYPE=DNA;\nMATRIX\na AC\nb GT\n;\nEND;\n", n)}
+			case "clustal":
+				texts = []string{"CLUSTAL W (1.82) multiple sequence alignment\n\na   " + a + "\nb   " + b + "\n    " + strings.Repeat(" ", L) + "\n"}
+			case "stockholm":
+				texts = []string{"# STOCKHOLM 1.0\n#=GF ID x\na " + a + "\nb " + b + "\n//\n", "# STOCKHOLM 1.0\n#=GF CC " + n + "\na AC\nb GT\n//\n"}
+			default:
+				return
+			}
+			for _, t := range texts {
+				crlf := strings.ReplaceAll(t, "\n", "\r\n")
+				for _, v := range []string{t, crlf, strings.TrimRight(t, "\n"), strings.TrimRight(crlf, "\r\n"), t[:len(t)-2], t[:len(t)-3]} {
+					c.Count("inputs/"+f.Name+"-long-lines", 1)
+					f.checkAll(c, v, false)
+				}
+			}
+			if c.Expired() {
+				return
+			}
+		}
+	}}
+}
+
 func c03Tasks(tier string) []mc.Task {
 	thorough := tier == "thorough"
 	fs := c03Formats()
 	var ts []mc.Task
+	for _, f := range fs {
+		ts = append(ts, f.longLineTask())
+	}
 	// simplest first: raw byte strings, then the contexts, tokens, seeds, splices
 	for _, f := range fs {
 		lb, _ := f.bounds(thorough)
@@ -710,7 +768,7 @@ func init() {
 	mc.Register(&mc.Prop{
 		ID:    "C03",
 		Level: "exploration",
-		Rule: "bounded-exhaustive enumeration of inputs; every input is given to every entry point of its format — fasta.Parse, fasta.ParseUnalign, phylip Parse and ParseMultiple (strict and relaxed), nexus.Parse, clustal.Parse, stockholm.Parse, " +
+		Rule: "(also: every seed file and every truncation of it read through a reader that ends with a read error instead of end-of-file, as a truncated compressed file does; per format, files whose row or name lines are 4080..4100 and 8180..8196 bytes long, with LF, CRLF, without final newline and cut inside the last line - the read buffer is 4096 bytes;) bounded-exhaustive enumeration of inputs; every input is given to every entry point of its format — fasta.Parse, fasta.ParseUnalign, phylip Parse and ParseMultiple (strict and relaxed), nexus.Parse, clustal.Parse, stockholm.Parse, " +
 			"partition.Parse(length 0, 1, 5) — under all 9 combinations of duplicate-name policy {none, name, sequence} x alphabet {auto, nucleotide, amino acid} (partition: no options), through a reader that hands out the input, then io.EOF, and counts reads after the end " +
 			"(more than 10000 = the call never returns). Inputs per format: (a) bytes: Pre+s+Post for every context (Pre, Post) of the format (the empty context first; then places inside a file: after the header, inside a DIMENSIONS / FORMAT / MATRIX / TAXA command, " +
 			"in a second block, after a complete alignment, inside a strict Phylip name …) and every byte string s of length <= 4 (quick) / 5 (thorough) over the format's 10-13 byte alphabet (its punctuation, letters, digits, space, LF, CR, NUL, 0xFF); " +
